@@ -150,6 +150,16 @@ def copy (h : Heap) (i : Nat) : Option Heap :=
   | some m =>
     some (m.md.foldl (fun hh kv => hh.write h.stores.length kv.1 kv.2) (h.alloc m.uuid m.payload))
 
+/-- the message a decoder hands back for object `i` (forwarder envelope: `unwrap(wrap(m_i))`): a new object whose
+    metadata is nil when the original's was nil (`"metadata": null`), otherwise a freshly decoded map with the same entries -/
+def decoded (h : Heap) (i : Nat) : Option Heap :=
+  match h.view i with
+  | none => none
+  | some m =>
+    match m.metadata with
+    | none => some (h.lit m.uuid m.payload)
+    | some _ => h.copy i
+
 def setUuid (h : Heap) (i : Nat) (u : String) : Option Heap :=
   h.objs[i]?.map fun o => { h with objs := h.objs.set i { o with uuid := u } }
 
@@ -174,6 +184,7 @@ inductive Op
   | equals (i j : Nat)
   | setUuid (i : Nat) (u : String)
   | setPayload (i : Nat) (p : Option Bytes)
+  | rewrap (i : Nat)             -- through the forwarder envelope and back: a decoded message (nil metadata stays nil)
   deriving Repr
 
 inductive Res
@@ -221,6 +232,10 @@ def step (h : Heap) : Op → Heap × Res
     match h.setPayload i p with
     | none => (h, .bad)
     | some h' => (h', .done)
+  | .rewrap i =>
+    match h.decoded i with
+    | none => (h, .bad)
+    | some h' => (h', .created)
 
 /-- run a program from a heap, collecting each result together with the heap after the step -/
 def run (h : Heap) : List Op → List (Res × Heap)
